@@ -10,6 +10,7 @@ from __future__ import annotations
 
 import itertools
 
+from mc import idadv
 from mc.core import CaseResult, Failure, HarnessError
 from checks import ormgen, ormgraphs
 from oracles import iso
@@ -51,6 +52,10 @@ def cases(tier, seed):
     out += [("curated", s) for s in specs]
     out += [("curated", s) for s in ormgraphs.family_vec_carrier(tier, no_repeats=True)]
     out += [("curated", s) for s in ormgraphs.family_alt_parent(tier, no_repeats=True)]
+    out += [("curated", s) for s in ormgraphs.family_drawing(tier, no_repeats=True)]
+    out += [("curated", s) for s in ormgraphs.family_alt_group(tier, no_repeats=True)]
+    teams = ormgraphs.family_teams(tier, no_repeats=True)
+    out += [("curated", s) for s in (teams[::4] if tier == "quick" else teams)]
     # generated models
     from checks import c06
     seen = set()
@@ -78,6 +83,7 @@ def dao_chain(dao_cls):
 
 def roundtrip(objs, orm, label, res, case):
     """objs: dict name -> object. Persists all, reloads each through every DAO class of its chain."""
+    listen_births(orm)
     import sqlalchemy
     from sqlalchemy import select, func
     from sqlalchemy.orm import Session
@@ -126,11 +132,46 @@ def roundtrip(objs, orm, label, res, case):
                 if diff:
                     res.failures.append(Failure("not-isomorphic", f"{label}; {n} loaded via {via.__name__}: {diff}", case=case))
                     return
+            # the same reload when the identity of every dead object is handed to the next object born (mc/idadv.py)
+            res.evaluations += 1
+            _ADV[0] = idadv.IdAdversary(recycle=True)
+            try:
+                with idadv.installed(_ADV[0]), Session(eng) as s4:
+                    row = s4.scalars(select(dcls).where(dcls.database_id == pk)).one()
+                    back = row.from_dao(FromDAOState())
+                    diff = iso.compare(o, back, ordered=False)
+                if _ADV[0].recycled:
+                    res.features = set(res.features or ()) | {"identity-recycled"}
+            except Exception as e:
+                res.failures.append(Failure("reload-crash", f"{label}; {n} via {dcls.__name__} [identities of dead objects are "
+                                                            f"reused at once]: {type(e).__name__}: {str(e)[:250]}", case=case))
+                continue
+            finally:
+                _ADV[0] = None
+            if diff:
+                res.failures.append(Failure("not-isomorphic", f"{label}; {n} loaded via {dcls.__name__} [identities of dead "
+                                                              f"objects are reused at once]: {diff}", case=case))
+                return
     finally:
         eng.dispose()
 
 
 CAP = [32]
+_ADV = [None]
+_LISTENING = set()
+
+
+def listen_births(orm):
+    """stamp the birth of every DAO that is constructed (not loaded) while an identity adversary is active"""
+    from sqlalchemy import event
+    if id(orm.Base) in _LISTENING:
+        return
+    _LISTENING.add(id(orm.Base))
+
+    def on_init(target, args, kwargs):
+        if _ADV[0] is not None:
+            _ADV[0].born(target)
+    event.listen(orm.Base, "init", on_init, propagate=True)
 
 
 def populations(model, cls_by_name):
@@ -217,7 +258,7 @@ def run_case(case):
         from checks.c04 import has_sharing_or_cycle
         if has_sharing_or_cycle(spec):
             res.nontrivial_key = case
-        res.features = {"curated"} | {n[1] for n in spec}
+        res.features = set(res.features or ()) | {"curated"} | {n[1] for n in spec}
         if not res.failures and res.nontrivial_key:
             res.sample = {"graph": label}
         res.outcome_key = ("curated", len(res.failures))
@@ -241,7 +282,7 @@ def run_case(case):
             roundtrip(objs, orm, f"{label0} wiring {wiring}", res, case)
             if res.failures:
                 break
-        res.features = {"generated", "classes:%d" % len(names)}
+        res.features = set(res.features or ()) | {"generated", "classes:%d" % len(names)}
         if any(f[1] in ("ref", "opt_ref", "list_ref") for c in model[1] for f in c[2]):
             res.nontrivial_key = case
         res.outcome_key = ("generated", len(pops), len(res.failures))
@@ -275,7 +316,7 @@ def cluster_key(case, f):
 
 def finish(run):
     if run.exhaustive and not run.failures:
-        for k in ("curated", "generated", "OVec", "OAltChild"):
+        for k in ("curated", "generated", "OVec", "OAltChild", "OTeam", "OAltGroup"):
             if not run.features.get(k):
                 raise HarnessError("vacuous: " + k)
 
@@ -326,7 +367,12 @@ def _m_assoc_swapped():
     WT.WrappedTable.create_one_to_many_relationship = patched
 
 
-MUTANTS = {"poly_identity_parent": _m_poly_identity_parent, "no_remote_side": _m_no_remote_side,
+def _m_temp_parent_dao_freed():
+    from checks import c04
+    c04._m_temp_parent_dao_freed()
+
+
+MUTANTS = {"temp_parent_dao_freed": _m_temp_parent_dao_freed, "poly_identity_parent": _m_poly_identity_parent, "no_remote_side": _m_no_remote_side,
            "no_post_update": _m_no_post_update}
 
 
